@@ -45,17 +45,26 @@ func (s *UnitSpec) closureLoop(prefix string, ord int) *LoopSpec {
 func (u *Unit) freshOf(st *State, hint string, t types.Type) Term {
 	v := u.defs.Fresh(hint, sortOf(t))
 	u.assume(st, typeFacts(v, t))
-	u.assume(st, u.ptrBound(v, t))
+	u.assume(st, u.ptrBoundIn(st, v, t))
 	return v
 }
 
-// ptrBound: a reference not created by this unit's own allocations lies below ALLOC_BASE; the unit's own
-// allocations are ALLOC_BASE+1 .. ALLOC_BASE+allocCtr. So every reference value is <= ALLOC_BASE+allocCtr.
-func (u *Unit) ptrBound(v Term, t types.Type) Term {
+// Allocation model: every state carries an allocation frontier `top`. A fresh object gets an address above the
+// frontier, which then moves up to it; everything that exists (parameters, heap contents, results of callees) is at
+// or below the frontier of the state in which it is obtained. Entry frontier = ALLOC_BASE.
+func (u *Unit) topOf(st *State) Term {
+	if st.top.S == "" {
+		return u.allocBase
+	}
+	return st.top
+}
+
+// ptrBound: a reference value obtained in state st is not above st's allocation frontier.
+func (u *Unit) ptrBoundIn(st *State, v Term, t types.Type) Term {
 	if u.allocBase.S == "" {
 		return True
 	}
-	top := App("+", SInt, u.allocBase, IntLit(int64(u.allocCtr)))
+	top := u.topOf(st)
 	switch t.Underlying().(type) {
 	case *types.Pointer, *types.Map, *types.Chan:
 		return App("<=", SBool, v, top)
@@ -67,7 +76,10 @@ func (u *Unit) ptrBound(v Term, t types.Type) Term {
 
 func (u *Unit) newAddr(st *State, hint string) Term {
 	u.allocCtr++
-	return u.defs.Define(hint, App("+", SInt, u.allocBase, IntLit(int64(u.allocCtr))))
+	a := u.defs.Fresh(hint, SInt)
+	u.assume(st, App(">", SBool, a, u.topOf(st)))
+	st.top = a
+	return a
 }
 
 // ---------------------------------------------------------------------------
@@ -521,6 +533,12 @@ func (f *Frame) enterLoop(li *loopInfo, cur *State, phiEntry map[*ssa.Phi]Val) *
 		if mods.ghosts[g] || mods.allGhosts {
 			st.ghost[g] = u.defs.Fresh("lg_"+g, st.ghost[g].Sort)
 		}
+	}
+	// earlier iterations may have allocated: the frontier only moves up
+	{
+		nt := u.defs.Fresh("top_loop", SInt)
+		u.assume(st, App(">=", SBool, nt, u.topOf(cur)))
+		st.top = nt
 	}
 	li.phiHead = map[*ssa.Phi]Val{}
 	for p := range phiEntry {
